@@ -179,6 +179,21 @@ func runC12(c *Ctx) {
 					c.count("encode_fails_at_signing")
 				}
 			}
+			// generic claims that WRAP another claim: their data holds a nats section of its own (with a type and perhaps a
+			// version of its own) and no top-level type - the stamp goes where the decoders read it, the wrapped section
+			// is content
+			if gc, ok := cl.(*jwt.GenericClaims); ok && i >= perKindCoq && i%3 == 1 {
+				if gc.Data == nil {
+					gc.Data = map[string]interface{}{}
+				}
+				delete(gc.Data, "type")
+				inner := map[string]interface{}{"type": "wrapped_kind", "k": "v"}
+				if i%2 == 0 {
+					inner["version"] = float64(1)
+				}
+				gc.Data["nats"] = inner
+				c.count("generic_claims_wrapping_a_nats_section")
+			}
 			// scopes put together by hand rather than with NewUserScope, filed directly in the key set: one that names no key
 			// of its own, one whose kind was left at its zero value (Encode refuses that one). Whatever Encode does with them,
 			// the scope objects are the caller's and stay as they were
